@@ -49,8 +49,11 @@ class EventDebouncer(BaseThread):
     def run(self) -> None:
         with self._cond:
             while True:
-                # Wait for first event (or shutdown).
-                self._cond.wait()
+                # Wait for first event (or shutdown).  Re-check the state after taking the
+                # lock: an event or stop() that came before this thread started waiting has
+                # already sent its notification.
+                while not self._events and self.should_keep_running():
+                    self._cond.wait()
 
                 if self.debounce_interval_seconds:
                     # Wait for additional events (or shutdown) until the debounce interval passes.
